@@ -8,7 +8,8 @@ from saml2_tophat import response as R
 OTHER_SP = "urn:mace:example.com:saml:other:sp"
 FOREIGN = "http://evil.example.org/acs"
 IRTS = [REQ_ID, "id-unknown", None]
-SCD_IRTS = [REQ_ID, "id-different", None]
+REQ2 = "id-req2"                      # a second request that is also still outstanding
+SCD_IRTS = [REQ_ID, "id-different", None, REQ2]
 AUDS = [None, [SP_ID], [OTHER_SP], [OTHER_SP, SP_ID], [" " + SP_ID + "\n"], [SP_ID + "/"]]
 AUD_NAMES_ME = [True, True, False, True, True, False]
 RECIPS = [ACS, SP_ID, FOREIGN, None, ACS + "/"]
@@ -27,7 +28,7 @@ def _run(irt, scd_irt, dest, r1, r2, recip, unsol, conv, regex_set, sc2, sc2_irt
                       "recipient": RECIPS[sc2_recip]})
     a = mk_assertion(t, {"not_on_or_after": ck.stamp(2, 1000600), "audiences": auds}, None, {}, confirmations=confs)
     resp = mk_response(t, [a], in_response_to=IRTS[irt], destination=dest)
-    ar = mk_authn_response(resp, allow_unsolicited=unsol,
+    ar = mk_authn_response(resp, allow_unsolicited=unsol, outstanding={REQ_ID: "/", REQ2: "/other"},
                            conv_info={"remote_addr": "0.0.0.0", "entity_id": SP_ID} if conv else None,
                            regex=REGEX if regex_set else None)
     exc = None
@@ -52,7 +53,7 @@ def addr(irt: int, scd_irt: int, dest: int, r1: int, r2: int, recip: int,
     """All clauses together over finite catalogues (Destination from the near-miss catalogue)."""
     d = DESTS[dest]
     acc, exc, ar = _run(irt, scd_irt, d, r1, r2, recip, unsol, conv, regex_set, sc2, sc2_irt, sc2_recip)
-    solicited = (irt == 0) & (scd_irt != 1) & ((not sc2) | (sc2_irt != 1))
+    solicited = (irt == 0) & (scd_irt != 1) & (scd_irt != 3) & ((not sc2) | ((sc2_irt != 1) & (sc2_irt != 3)))
     if regex_set:
         dest_ok = (d is None) or (re.search(REGEX, d) is not None)
     else:
@@ -83,8 +84,8 @@ def dest_string(has_dest: bool, dest: str, irt: int, unsol: bool):
 _P = [("irt", "int"), ("scd_irt", "int"), ("dest", "int"), ("r1", "int"), ("r2", "int"),
       ("recip", "int"), ("unsol", "bool"), ("conv", "bool"), ("sc2", "bool"), ("sc2_irt", "int"), ("sc2_recip", "int"),
       ("regex_set", "bool")]
-_PRE = ["0 <= irt < 3", "0 <= scd_irt < 3", "0 <= dest < %d" % len(DESTS), "0 <= r1 < %d" % len(AUDS), "0 <= r2 < %d" % len(AUDS),
-        "0 <= recip < %d" % len(RECIPS), "0 <= sc2_irt < 3", "0 <= sc2_recip < %d" % len(RECIPS)]
+_PRE = ["0 <= irt < 3", "0 <= scd_irt < 4", "0 <= dest < %d" % len(DESTS), "0 <= r1 < %d" % len(AUDS), "0 <= r2 < %d" % len(AUDS),
+        "0 <= recip < %d" % len(RECIPS), "0 <= sc2_irt < 4", "0 <= sc2_recip < %d" % len(RECIPS)]
 _NOSC2 = {"sc2": False, "sc2_irt": 0, "sc2_recip": 0}
 
 CONDITIONS = [
@@ -92,7 +93,7 @@ CONDITIONS = [
          partitions={"quick": [dict(_NOSC2, r1=a, r2=b, dest=d, regex_set=False) for a in range(len(AUDS)) for b in (0, 2) for d in (0, 1, 3)] +
                               [dict(_NOSC2, r1=1, r2=0, dest=d, regex_set=True) for d in range(len(DESTS))] +
                               [{"r1": 1, "r2": 0, "sc2": True, "dest": 0, "regex_set": False, "unsol": u, "conv": c, "scd_irt": i}
-                               for u in (False, True) for c in (False, True) for i in range(3)],
+                               for u in (False, True) for c in (False, True) for i in range(4)],
                      "thorough": [dict(_NOSC2, r1=a, r2=b, dest=d, regex_set=g) for a in range(len(AUDS)) for b in range(len(AUDS))
                                   for d in range(len(DESTS)) for g in (False, True)] +
                                  [{"r1": a, "r2": 0, "sc2": True, "dest": d, "regex_set": False, "unsol": u, "conv": c}
@@ -101,7 +102,7 @@ CONDITIONS = [
          functions=["response.AuthnResponse.loads", "response.AuthnResponse.check_subject_confirmation_in_response_to",
                     "response.StatusResponse._validate_destination", "response.for_me", "response.AuthnResponse.condition_ok",
                     "response.AuthnResponse.get_subject/verify_recipient/_bearer_confirmed/_assertion/verify_attesting_entity"],
-         bounds="InResponseTo in {outstanding, unknown, absent}; 1-2 bearer confirmations each with InResponseTo in {same, different, absent} and "
+         bounds="InResponseTo in {outstanding, unknown, absent}; 1-2 bearer confirmations each with InResponseTo in {same, unknown, absent, another request that is also outstanding} and "
                 "Recipient in {ACS, entity id, foreign, absent, near miss}; Destination from a 6-entry catalogue (own, foreign, absent, own endpoint of "
                 "another binding, upper-cased, extra query); 0-2 AudienceRestrictions from {[SP],[other],[other,SP],[SP padded with whitespace],[SP+'/']}; "
                 "allow_unsolicited; conv_info; destination pattern set/unset (quick: subset of the audience x destination grid)"),
